@@ -163,9 +163,17 @@ class Enc:
             else:
                 i = self.tcode({"tuple": "(", "list": "[", "set": "<", "frozenset": ">"}[k]); self.out += le32(n)
             if k in ("set", "frozenset"):
-                # distinct, hashable, order-independent items
+                # distinct, hashable, order-independent items; from 3.4 each may carry FLAG_REF itself (the compiler
+                # shares members of a shared frozenset constant), which makes the order of reference slots observable
                 for j in range(n):
-                    self.out.append(ord("i")); self.out += le32(1000 + j * 7)
+                    if self.allow_ref and n <= 20 and r.random() < 0.5:
+                        if r.random() < 0.5:
+                            ii = self.tcode("i"); self.out += le32(1000 + j * 7); self.finish(ii)
+                        else:
+                            b = ("m%d" % j).encode()
+                            ii = self.tcode(r.choice("zZ")); self.out += [len(b)] + list(b); self.finish(ii)
+                    else:
+                        self.out.append(ord("i")); self.out += le32(1000 + j * 7)
             else:
                 for j in range(n):
                     if sub:
@@ -190,7 +198,44 @@ class Enc:
             self.finish(i)
 
 
+def slot_order_stream(rnd):
+    """3.4+: a FLAG_REF container with FLAG_REF members, then a back-reference to every slot: which object sits in which
+    slot depends on whether the container reserves its slot before or after reading its members."""
+    kind = rnd.choice(["(", ")", "[", "<", ">", "{"])
+    m = rnd.randrange(1, 4)
+    out = [ord("("), 0, 0, 0, 0]
+    items = 1
+    FLAG = 0x80
+    out.append(ord(kind) | FLAG)
+    if kind == ")":
+        out.append(m)
+    elif kind != "{":
+        out += le32(m)
+    for j in range(m):
+        if kind == "{":
+            out += [ord("i") | FLAG] + le32(70 + j)          # key
+            b = ("v%d" % j).encode()
+            out += [ord("z") | FLAG, len(b)] + list(b)      # value
+        elif rnd.random() < 0.5:
+            out += [ord("i") | FLAG] + le32(1000 + j)
+        else:
+            b = ("m%d" % j).encode()
+            out += [ord("Z") | FLAG, len(b)] + list(b)
+    if kind == "{":
+        out.append(ord("0"))
+    nslots = 1 + (2 * m if kind == "{" else m)
+    refs = list(range(nslots))
+    rnd.shuffle(refs)
+    for i in refs:
+        out += [ord("r")] + le32(i)
+        items += 1
+    out[1:5] = le32(items)
+    return out, [], {"slot-order:" + kind: 1}
+
+
 def stream(rnd, fam):
+    if FAMS[fam]["v34"] and rnd.random() < 0.08:
+        return slot_order_stream(rnd)
     e = Enc(rnd, fam)
     e.gen(0)
     return e.out, sorted((list(k), v) for k, v in e.ft.items()), e.kinds
